@@ -42,7 +42,7 @@ Record service := mkservice { s_tns : text; s_methods : list method }.
 (* ------------------------------------------------------------ decorator.py: message classes *)
 
 Definition rename (f : field) (n : text) : field :=
-  mkfield n (f_ty f) (f_min f) (f_max f) (f_nillable f) (f_kind f).
+  mkfield n (f_ty f) (f_min f) (f_max f) (f_nillable f) (f_kind f) (f_sub_name f) (f_sub_ns f).
 
 (** '%s%s%d' % (func_name, RESULT_SUFFIX, i) for a sequence of return types, '%s%s' for one *)
 Fixpoint result_fields (name : text) (i : Z) (rs : list field) : list field :=
@@ -117,6 +117,50 @@ Inductive fcode :=
 | FNotFound            (* Client.ResourceNotFound *)
 | FServer.             (* Server: an exception inside process_request *)
 
+(** ** Documents as they are on the wire and the tree the parser hands to the protocol.
+    An element's content is a sequence of character data, elements, comments and processing instructions.
+    lxml (XMLParser( **self.parser_kwargs ), generated flags) drops the comments / PIs it is told to remove and
+    joins the character data around them; a node it keeps ends the element's .text and is a child ([XOther]).
+    Tails are not read by Spyne and are not part of [xnode]. *)
+Inductive dnode :=
+| DElt (ns name : text) (atts : list attr) (content : list dnode)
+| DText (t : text)
+| DComment
+| DPI.
+
+Fixpoint lead_text (rc rp : bool) (l : list dnode) : text :=
+  match l with
+  | DText t :: r => t ++ lead_text rc rp r
+  | DComment :: r => if rc then lead_text rc rp r else []
+  | DPI :: r => if rp then lead_text rc rp r else []
+  | _ => []
+  end.
+
+Fixpoint parse_doc (rc rp : bool) (d : dnode) : xnode :=
+  match d with
+  | DElt ns n a c =>
+      XElt ns n a (match lead_text rc rp c with [] => None | t => Some t end)
+           (flat_map (fun x => match x with
+                               | DElt _ _ _ _ => [parse_doc rc rp x]
+                               | DText _ => []
+                               | DComment => if rc then [] else [XOther]
+                               | DPI => if rp then [] else [XOther]
+                               end) c)
+  | _ => XOther
+  end.
+
+(** what create_in_document builds from the bytes of a request (and the Spyne client from those of a response) *)
+Definition parsed (d : dnode) : xnode := parse_doc xw_remove_comments xw_remove_pis d.
+
+(** what the document denotes for an XML Schema processor: comments and PIs are not part of it *)
+Definition denoted (d : dnode) : xnode := parse_doc true true d.
+
+(** how Soap11.deserialize matches a header block to a declared header class: by '{namespace}type_name'
+    (the generated flag; matching by the local name alone would confuse same-named blocks of other namespaces) *)
+Definition hdr_match (ns name : text) (e : xnode) : bool :=
+  if xw_hdr_qualified then is_elt ns name e
+  else match e with XElt _ m _ _ _ => text_eqb m name | XOther => false end.
+
 (** _from_soap: (children of the first Header, first child of the first Body) *)
 Definition from_soap (P : proto) (doc : xnode) : fcode + (option (list xnode) * option xnode) :=
   if negb (is_elt (env_ns P) t_Envelope doc) then inl FSoapError
@@ -159,10 +203,11 @@ Inductive rsp :=
 | RFault (log : list call) (c : fcode)
 | RCrash (log : list call) (e : exn).
 
-(** deserialize(): a decoded message that is None (the request element is xsi:nil, or a bare primitive without
-    content) is replaced by [None] * len(body_class._type_info) -- one None per OWN member of the message class;
-    a primitive class has no _type_info: AttributeError, outside the try block of get_in_object *)
-Definition absent_args (U : universe) (t : ty) (v : val) : exn + val :=
+(** deserialize(), body_style WRAPPED only: a decoded message that is None (the request element is xsi:nil) is
+    replaced by [None] * len(body_class._type_info) -- one None per OWN member of the message class; the only
+    argument of a bare method is simply None, and for out_bare the None is kept (tuple(None) then fails) *)
+Definition absent_args (wrapped : bool) (U : universe) (t : ty) (v : val) : exn + val :=
+  if negb wrapped then inr v else
   match v with
   | VNone =>
       match t with
@@ -193,7 +238,7 @@ Section Pipeline.
   Fixpoint last_elt (ns name : text) (l : list xnode) (acc : option xnode) : option xnode :=
     match l with
     | [] => acc
-    | e :: r => last_elt ns name r (if is_elt ns name e then Some e else acc)
+    | e :: r => last_elt ns name r (if hdr_match ns name e then Some e else acc)
     end.
   Fixpoint dec_headers (classes : list cid) (hdoc : list xnode) : out (list val) :=
     match classes with
@@ -292,7 +337,7 @@ Section Pipeline.
                   | VFault => RFault [] FValidation
                   | Crash e => RCrash [] e
                   | Ok inobj0 =>
-                    match absent_args U (fst (req_ty U0 i m)) inobj0 with
+                    match absent_args (match eff_style m with EWrapped => true | _ => false end) U (fst (req_ty U0 i m)) inobj0 with
                     | inl e => RCrash [] e
                     | inr inobj =>
                       (* process_request: the argument sequence *)
@@ -352,7 +397,8 @@ Section Pipeline.
         do ohdr0 <- hdr_in (m_out_header m) hdoc;
         let ohdr := match ohdr0 with Some [VNone] => None | _ => ohdr0 end in   (* len(headers) == 1: the header itself *)
         do v0 <- dec L C U fuel (fst (resp_ty U0 i m)) (snd (resp_ty U0 i m)) body;
-        do v <- match absent_args U (fst (resp_ty U0 i m)) v0 with inl e => Crash e | inr v => Ok v end;
+        do v <- match absent_args (match eff_style m with EWrapped => true | _ => false end) U (fst (resp_ty U0 i m)) v0 with
+                | inl e => Crash e | inr v => Ok v end;
         match m_style m, m_returns m, v with
         | SWrapped, [], _ => Ok (VNone, ohdr)
         | SWrapped, [_], VObj _ [x] => Ok (x, ohdr)
